@@ -396,7 +396,8 @@ func (c *Ctx) infoOf(fn *ssa.Function) *types.Info {
 // ---- known findings --------------------------------------------------------
 
 type KnownFinding struct {
-	Property  string `json:"property"`
+	Property   string   `json:"property"`
+	Properties []string `json:"properties,omitempty"` // further properties served by the same rule and construct
 	Rule      string `json:"rule"`
 	Construct string `json:"construct"`
 	Status    string `json:"status"` // "known" | "fixed"
@@ -474,7 +475,13 @@ func (c *Ctx) Finish(prop *Property, start time.Time, seed int, extra map[string
 			continue
 		}
 		for ki, k := range known {
-			if k.Status == "known" && k.Rule == o.Rule && k.Construct == o.Key && k.Property == prop.ID {
+			applies := k.Property == prop.ID
+			for _, p2 := range k.Properties {
+				if p2 == prop.ID {
+					applies = true
+				}
+			}
+			if k.Status == "known" && k.Rule == o.Rule && k.Construct == o.Key && applies {
 				o.Verdict = Known
 				o.Fact += " [known finding: " + k.Fails + "]"
 				usedKnown[ki] = true
